@@ -494,3 +494,25 @@ Section PartialTucker.
   Definition enumerate_from (i : nat) (l : list nat) : list (nat * nat) := combine (seq i (length l)) l.
 End PartialTucker.
 Arguments pts : clear implicits.
+
+(* ------------------------------------------------------------------ the state of a driver that is interrupted in mid-sweep (an exception out of a
+   backend call): after `done_` units of budget, the orthogonalise hook of the current iteration `it` (if on) and the updates of the modes in
+   `l` (a prefix of the update list).  Default normalisation. *)
+Section InterruptedSkel.
+  Context {M W X : Type}.
+  Variable upd : nat -> nat -> st M W X -> M * X.
+  Variable stop : nat -> st M W X -> bool.
+  Variable normf : st M W X -> st M W X.
+  Variable pre : nat -> nat -> st M W X -> M.
+  Variable pre_on : nat -> bool.
+  Variable post : nat -> st M W X -> X.
+  Variable ls_on : nat -> bool.
+  Variable ls_accept : nat -> st M W X -> st M W X -> bool.
+  Variable lsf : nat -> st M W X -> M -> M -> M.
+  Variable lsw : nat -> st M W X -> W -> W -> W.
+  Variable lsx : nat -> st M W X -> st M W X -> X.
+  Definition interrupted_state (a : algo) (free : nat -> bool) (ml : list nat) (done_ it : nat) (l : list nat) (s : st M W X) : st M W X :=
+    let sb := iterate upd stop normf false pre pre_on post ls_on ls_accept lsf lsw lsx a free done_ 0 ml s in
+    let s0 := if has_hooks a && pre_on it then pre_state pre free it sb else sb in
+    fold_left (step upd normf false a it ml) l s0.
+End InterruptedSkel.
